@@ -46,20 +46,30 @@ impl<const MAX_STREAMS: usize> StreamsManagerBase<MAX_STREAMS> {
     { }
 }
 /// the crossbeam queue seen through `tx` / `rx` (ASSUMED: bounded FIFO of capacity BUFFER_SIZE; both ends are owned by the channel)
-pub struct Crossbeam<const BUFFER_SIZE: usize, const MAX_STREAMS: usize> { pub q: Ghost<Seq<u64>>, pub streams_manager: StreamsManagerBase<MAX_STREAMS> }
+pub struct Crossbeam<const BUFFER_SIZE: usize, const MAX_STREAMS: usize> { pub q: Ghost<Seq<u64>>, pub streams_manager: StreamsManagerBase<MAX_STREAMS>,
+    /// ghost: per stream, the wake-ups issued WHILE an event was deliverable (a wake-up issued before the event is visible finds nothing: C04 mechanism)
+    pub eff: Ghost<Seq<nat>> }
 impl<const BUFFER_SIZE: usize, const MAX_STREAMS: usize> Crossbeam<BUFFER_SIZE, MAX_STREAMS> {
-    pub open spec fn wf(&self) -> bool { self.q@.len() <= BUFFER_SIZE && 1 <= MAX_STREAMS && self.streams_manager.wakes@.len() == MAX_STREAMS && BUFFER_SIZE >= 1 }
+    pub open spec fn wf(&self) -> bool { self.q@.len() <= BUFFER_SIZE && 1 <= MAX_STREAMS && self.streams_manager.wakes@.len() == MAX_STREAMS && self.eff@.len() == MAX_STREAMS && BUFFER_SIZE >= 1 }
+    /// `self.streams_manager.wake_stream(id)` seen from the channel: the index bound is an obligation; `eff` counts the wake-ups issued while something is deliverable
+    #[verifier::external_body]
+    pub fn wake_stream(&mut self, stream_id: u32)
+        requires (stream_id as int) < MAX_STREAMS, old(self).streams_manager.wakes@.len() == MAX_STREAMS, old(self).eff@.len() == MAX_STREAMS,
+        ensures final(self).streams_manager.wakes@ == old(self).streams_manager.wakes@.update(stream_id as int, old(self).streams_manager.wakes@[stream_id as int] + 1), final(self).streams_manager.cancels == old(self).streams_manager.cancels,
+                final(self).q == old(self).q,
+                final(self).eff@ == (if old(self).q@.len() > 0 { old(self).eff@.update(stream_id as int, old(self).eff@[stream_id as int] + 1) } else { old(self).eff@ }),
+    { }
     #[verifier::external_body] pub fn q_len(&self) -> (r: usize) ensures r == self.q@.len() { unimplemented!() }
     #[verifier::external_body] pub fn q_is_full(&self) -> (r: bool) ensures r == (self.q@.len() >= BUFFER_SIZE) { unimplemented!() }
     #[verifier::external_body]
     pub fn q_try_send(&mut self, item: u64) -> (r: Result<(), TrySendError>)
-        ensures final(self).streams_manager == old(self).streams_manager,
+        ensures final(self).streams_manager == old(self).streams_manager, final(self).eff == old(self).eff,
                 old(self).q@.len() < BUFFER_SIZE ==> r is Ok && final(self).q@ == old(self).q@.push(item),
                 old(self).q@.len() >= BUFFER_SIZE ==> r == Err::<(), TrySendError>(TrySendError::Full(item)) && final(self).q == old(self).q,
     { unimplemented!() }
     #[verifier::external_body]
     pub fn q_try_recv(&mut self) -> (r: Result<u64, TryRecvError>)
-        ensures final(self).streams_manager == old(self).streams_manager,
+        ensures final(self).streams_manager == old(self).streams_manager, final(self).eff == old(self).eff,
                 old(self).q@.len() > 0 ==> r == Ok::<u64, TryRecvError>(old(self).q@[0]) && final(self).q@ == old(self).q@.drop_first(),
                 old(self).q@.len() == 0 ==> r == Err::<u64, TryRecvError>(TryRecvError::Empty) && final(self).q == old(self).q,
     { unimplemented!() }
@@ -68,26 +78,26 @@ impl<const BUFFER_SIZE: usize, const MAX_STREAMS: usize> Crossbeam<BUFFER_SIZE, 
     #[verifier::external_body]
     pub fn retry_async_yielding_forever(&mut self, first: RetryResult<u64>)
         requires old(self).wf(), !(first is Fatal),
-        ensures final(self).wf(), first is Ok ==> final(self).q == old(self).q && final(self).streams_manager == old(self).streams_manager,
+        ensures final(self).wf(), first is Ok ==> final(self).q == old(self).q && final(self).streams_manager == old(self).streams_manager && final(self).eff == old(self).eff,
                 first matches RetryResult::Transient { input, .. } ==> final(self).q@.len() > 0 && final(self).q@.last() == input,
     { }
     /// the same with `.spinning_forever()`: busy-spins INSIDE the poll -- tolerable only when the first attempt cannot be refused (C20)
     #[verifier::external_body]
     pub fn retry_async_spinning_forever(&mut self, first: RetryResult<u64>)
         requires first is Ok,
-        ensures final(self).q == old(self).q, final(self).streams_manager == old(self).streams_manager,
+        ensures final(self).q == old(self).q, final(self).streams_manager == old(self).streams_manager, final(self).eff == old(self).eff,
     { }
     /// any other keen-retry executor (`yielding_until_timeout`, `spinning_until_timeout`, a bounded number of attempts, ...) may GIVE UP: when it returns the
     /// item may or may not have been accepted
     #[verifier::external_body]
     pub fn retry_async_may_give_up(&mut self, first: RetryResult<u64>)
         requires old(self).wf(),
-        ensures final(self).wf(), first is Ok ==> final(self).q == old(self).q && final(self).streams_manager == old(self).streams_manager,
+        ensures final(self).wf(), first is Ok ==> final(self).q == old(self).q && final(self).streams_manager == old(self).streams_manager && final(self).eff == old(self).eff,
     { }
     /// the `.await` of the async setter (R10): other producers / the consumers run meanwhile -- the queue is whatever they made of it
     #[verifier::external_body]
     pub fn suspend_point(&mut self)
-        ensures final(self).q@.len() <= BUFFER_SIZE, final(self).streams_manager.wakes@.len() == old(self).streams_manager.wakes@.len(),
+        ensures final(self).q@.len() <= BUFFER_SIZE, final(self).streams_manager.wakes@.len() == old(self).streams_manager.wakes@.len(), final(self).eff == old(self).eff,
     { }
 }
 """
@@ -122,6 +132,7 @@ class MapOrElseToMatch(Rule):
 
 
 COMMON = [Rule("R3-retry-path", r"\bkeen_retry::RetryResult::", "RetryResult::", min=0, note="keen_retry::RetryResult -> the unit's plain enum with the same variants"),
+          Rule("R6-wake", r"\bself\.streams_manager\.wake_stream\(", "self.wake_stream(", min=0, note="wake_stream -> channel-level shim (index bound + 'issued while an event was deliverable')"),
           Rule("R6-tx", r"\bself\.tx\.(len|is_full|try_send)\(", r"self.q_\1(", min=0, note="crossbeam Sender -> queue shims"),
           Rule("R6-rx", r"\bself\.rx\.try_recv\(", "self.q_try_recv(", min=0)]
 SETTER_VALUE = Rule("R7-maybeuninit", r"let mut item = MaybeUninit::uninit\(\);\s*let item_ref = unsafe \{ &mut \*item\.as_mut_ptr\(\) \};\s*setter\(item_ref\)(\.await)?;\s*let item = unsafe \{ item\.assume_init\(\) \};",
@@ -143,7 +154,7 @@ FNS = [
        ensures="final(self).wf(),"
                "old(self).q@.len() < BUFFER_SIZE ==> r is Ok && final(self).q@ == old(self).q@.push(item),"
                "old(self).q@.len() >= BUFFER_SIZE ==> (r matches RetryResult::Transient { input, .. } && input == item) && final(self).q == old(self).q,"
-               "old(self).q@.len() == 0 ==> final(self).streams_manager.wakes@[0] > old(self).streams_manager.wakes@[0],"
+               "old(self).q@.len() == 0 ==> final(self).streams_manager.wakes@[0] > old(self).streams_manager.wakes@[0] && final(self).eff@[0] > old(self).eff@[0],"
                "forall|i: int| 0 <= i < MAX_STREAMS ==> final(self).streams_manager.wakes@[i] >= old(self).streams_manager.wakes@[i]"),
     fn("send_with", props=["C01", "C16", "C04"],
        sig="pub fn send_with(&mut self, setter: Setter) -> (r: RetryResult<Setter>)", sig_anchor=r"fn send_with<F: FnOnce\(&mut ItemType\)>\(&self, setter: F\)",
